@@ -11,8 +11,13 @@ PROP = {
  'level_note': 'caps: 3 lists x 5 elements (quick), 3 x 6 (thorough); 3 signals x 4 connections (quick), 3 x 5 (thorough); new objects use the lowest free slot; list move-assignment has replace semantics (DESIGN.md section 5)',
  'binaries': [{'name': 'C11', 'sources': ['harness/C11.cpp'], 'libs': [], 'flavour': 'asan'}],
  'deadline': {'quick': 300, 'thorough': 1500},
- 'rule': 'BFS over histories; a transition is non-trivial when it changes the canonical state (the set of rings of heads and elements); states are distinct canonical ring sets',
+ 'rule': 'BFS over histories; a transition is non-trivial when it changes the canonical state (the set of rings of heads and elements); states are distinct canonical ring sets. Re-entrant use of signals (shards signal_reentrant_*): exhaustive enumeration, for 1..5 (unregister base: 1..4) connections, of one behaviour per callback '
+         '(nothing / destroy connection j != i during the emission), one behaviour per unregister callback (nothing / record empty() / record empty() and emit the signal again), the first operation '
+         '(emit, or destroy connection c from outside), and whether the signal was move-constructed or move-assigned before; signatures void(int) and int(int), plain and unregister base; the '
+         'recorded event sequence (callbacks invoked, unregister callbacks with the emptiness they saw, fold results) must equal that of a recursive reference interpreter over the set of live '
+         'connections, followed by a quiet emission and the unregister-exactly-once count',
  'assumptions': ['an element move-constructed/assigned from an unlinked element is unlinked; a list move-assigned from an empty list is empty and its previous members are detached (uniform take-over rule, DESIGN.md section 5)',
                  'signal connections are non-movable by design; only signals are moved',
+                 'a connection whose own callback is executing is never destroyed (that destroys a running std::function: outside any contract); callbacks do not add connections during an emission',
                  '128-bit hashes of canonical strings are used for deduplication'],
 }
